@@ -559,6 +559,10 @@ class FastSimulation(object):
         _is_python_name = self.internal_names.extra_checks
         self.internal_names.extra_checks = \
             lambda s: _is_python_name(s) and s not in ('d', 'regs', 'outs', 'mem_ws')
+        # memories share the value dictionary with the wires: their keys must not be wire names
+        self._mem_prefix = 'fs_mem'
+        while any(w.name.startswith(self._mem_prefix) for w in block.wirevector_set):
+            self._mem_prefix += '_'
         self._initialize(register_value_map, memory_value_map)
 
     def _initialize(self, register_value_map={}, memory_value_map={}):
@@ -836,7 +840,7 @@ class FastSimulation(object):
         return self.internal_names[val.name]
 
     def _mem_varname(self, val):
-        return 'fs_mem' + str(val.id)
+        return self._mem_prefix + str(val.id)
 
     def _arg_varname(self, wire):
         """
